@@ -67,6 +67,16 @@ def run(ck, rng, tier):
             ys = [rng.gauss(0, 1) for _ in xs]
             ys[k] = ys[k - 1] + rng.choice((0.25, -0.4))
             ck.count("knots 1e4 apart with one pair 1e-4 apart")
+        if c in (5, 6):
+            # irregular knots whose FIRST spacing equals the mean spacing exactly (x_n - x_0 == n * h_0 in binary64)
+            spacing = 2.0 ** rng.choice((-6, 0, 8))
+            base_ = [0.0, 1.0, 1.5, 4.0, 4.25, 5.0] if c == 5 else [0.0, 1.0, 1.25, 1.5, 3.5, 6.0, 6.5, 7.0]
+            off_ = spacing * rng.choice((0.0, -4.0, 16.0))
+            xs = [off_ + spacing * v for v in base_]
+            n = len(xs)
+            kind = "general" if c == 5 else "linear"
+            ys = [2.5 * x / spacing - 1.0 for x in xs] if kind == "linear" else [rng.gauss(0, 1) for _ in xs]
+            ck.count("irregular knots, first spacing = mean spacing")
         # query points: the knots themselves and interior points
         q = list(xs) + [xs[i] + (xs[i + 1] - xs[i]) * rng.uniform(0.1, 0.9) for i in range(n - 1)]
         lines.append("spline %s %s" % (vf.fmt_mat([[x, y] for x, y in zip(xs, ys)]), vf.fmt_vec(q)))
